@@ -20,7 +20,7 @@ import (
 
 // ---- C01: exactly one response per client request, on the request's own stream ----
 
-var c01Locals = []string{"options", "system_local", "system_peers", "system_bad_column", "system_json", "system_func", "use", "use_missing", "prepare_system", "register",
+var c01Locals = []string{"options", "system_local", "system_peers", "system_bad_column", "system_json", "system_func", "use", "use_missing", "prepare_system", "prepare_system_bad_column", "prepare_system_json", "prepare_system_func", "prepare_use", "register",
 	"startup_again", "startup_badcomp", "auth_response", "bad_version"}
 
 func genStormScript(rt *rapid.T, maxLen int, parkPct, dropPct int) []fakecass.Outcome {
@@ -51,6 +51,21 @@ func genStormSteps(rt *rapid.T, hosts, max int) []stormStep {
 	return out
 }
 
+// stormFastIdle turns one case in seven into a fast-idle case whose schedule has 1..2 steps that make the proxy close
+// backend connections itself.
+func stormFastIdle(rt *rapid.T, c *stormCase) {
+	if rapid.IntRange(0, 6).Draw(rt, "fastidle") != 0 {
+		return
+	}
+	c.FastIdle = true
+	n := rapid.IntRange(1, 2).Draw(rt, "nproxycloses")
+	for i := 0; i < n; i++ {
+		st := stormStep{Op: rapid.SampledFrom([]string{"silence_host", "silence_host", "remove_host"}).Draw(rt, "closeop"), Host: rapid.IntRange(0, c.Hosts-1).Draw(rt, "closehost")}
+		at := rapid.IntRange(0, len(c.Steps)).Draw(rt, "closeat")
+		c.Steps = append(c.Steps[:at], append([]stormStep{st}, c.Steps[at:]...)...)
+	}
+}
+
 func c01Gen(rt *rapid.T) stormCase {
 	c := stormCase{Hosts: rapid.IntRange(1, 4).Draw(rt, "hosts"), Conns: rapid.IntRange(1, 2).Draw(rt, "conns"), IdempotentGraph: rapid.Bool().Draw(rt, "idemgraph")}
 	maxReq := evid.Pick(25, 60)
@@ -72,6 +87,7 @@ func c01Gen(rt *rapid.T) stormCase {
 	}
 	c.Steps = genStormSteps(rt, c.Hosts, 6)
 	c.Warn = rapid.IntRange(0, 3).Draw(rt, "backendwarns") == 0
+	stormFastIdle(rt, &c)
 	return c
 }
 
@@ -101,7 +117,7 @@ func stormClassify(c *stormCase) (labels []string, nreq, retries, parks, drops i
 	}
 	for _, st := range c.Steps {
 		labels = append(labels, "step:"+st.Op)
-		if strings.HasPrefix(st.Op, "drop") {
+		if strings.HasPrefix(st.Op, "drop") || st.Op == "silence_host" || st.Op == "remove_host" {
 			drops++
 		}
 	}
